@@ -1140,6 +1140,8 @@ def run(ctx):
     started_fun = c07_fun.start_tlc(ctx)         # part FUN / LAY (ModelGeomFun.tla), also in the background
     from cuqiverif import c07_construct
     started_con = c07_construct.start_tlc(ctx)   # part CON (ModelGeomConstruct.tla): construction as a step of its own
+    from cuqiverif import c07_vec
+    started_vec = c07_vec.start_tlc(ctx)         # parts ARR / VEC (ModelGeomVec.tla): carried geometries, vector-only function pairs
     try:
         for c in lin:
             check_lin_case(ctx, c)
@@ -1149,19 +1151,27 @@ def run(ctx):
         wait_tlc(started)
         c07_fun.wait_tlc(started_fun)
         c07_construct.wait_tlc(started_con)
+        c07_vec.wait_tlc(started_vec)
         raise
     try:
         nseq += run_edit(ctx, lin, started)
     except BaseException:
         c07_fun.wait_tlc(started_fun)
         c07_construct.wait_tlc(started_con)
+        c07_vec.wait_tlc(started_vec)
         raise
     try:
         nseq += c07_fun.run_fun(ctx, started_fun, lin)
     except BaseException:
         c07_construct.wait_tlc(started_con)
+        c07_vec.wait_tlc(started_vec)
         raise
-    nseq += c07_construct.run_construct(ctx, started_con, lin)
+    try:
+        nseq += c07_construct.run_construct(ctx, started_con, lin)
+    except BaseException:
+        c07_vec.wait_tlc(started_vec)
+        raise
+    nseq += c07_vec.run_all(ctx, started_vec)
     for c in conv:
         (check_conv1 if c["kind"] == "conv1" else check_conv2)(ctx, c)
     named = named_problems(tier)
@@ -1207,6 +1217,9 @@ def replay(ctx, case):
     if kind in ("fun", "lay"):
         from cuqiverif import c07_fun
         return c07_fun.replay(ctx, case)
+    if kind in ("arr", "vec"):
+        from cuqiverif import c07_vec
+        return c07_vec.replay(ctx, case)
     if kind == "con":
         from cuqiverif import c07_construct
         return c07_construct.replay(ctx, case)
